@@ -315,6 +315,8 @@ def build_catalogue(ctx):
         return {"obs": Arr(vec(rng, n, kind), nan_at=maybe(rng, n)), "ens": Arr(mat(rng, n, p, kind), nan_at=maybe(rng, n * p))}
 
     def obs_sim(rng, n, kind="pos"):
+        if kind == "pos" and rng.random() < 0.4:
+            kind = "normal"      # series with negative values (censoring / masking code paths)
         return {"obs": Arr(vec(rng, n, kind), nan_at=maybe(rng, n)), "sim": Arr(vec(rng, n, kind), nan_at=maybe(rng, n))}
 
     # ---------------- stat.metrics
